@@ -1,7 +1,7 @@
 """Shared workload pieces for the recreate-from-average properties C02, C04, C05, C06, C07."""
 import numpy as np
 
-from .. import gen
+from .. import callform, gen
 from ..models import rfa_model as RM
 
 WINDOW = ["LinearFixedRFA", "LinearAdaptiveRFA", "ExpFixedRFA", "ExpAdaptiveRFA"]
@@ -66,11 +66,17 @@ def gen_n(rng):
     return int(rng.choice([2, 3, 4, 5, 8, 10, 16, 64, int(rng.integers(2, 65))]))
 
 
+def build(rng, kind, x, y, n, kw, klass=None):
+    """construct a strategy object in a randomly chosen documented call form (positional prefix of the optional
+    parameters in the documented order, mandatory parameters by name, or the plain x, y, n, **kw)"""
+    return callform.call(rng, klass or cls(kind), kind, [x, y, n], kw)
+
+
 def run(kind, x, y, n, kw, rng=None):
     """construct the strategy object and ask it; when an rng is given, in a quarter of the cases another object of the
     SAME class (other data, other factor, other parameters) is constructed - and sometimes used - in between: objects
     must not share state through their class"""
-    obj = cls(kind)(x, y, n, **kw)
+    obj = build(rng, kind, x, y, n, kw)
     if rng is not None and rng.integers(0, 4) == 0:
         n2 = gen_n(rng)
         kw2, _a = gen_params(rng, kind, n2)
